@@ -53,6 +53,29 @@ def unexpected(clause, exc, detail=''):
                      '%s raised %s: %s %s' % (clause, type(exc).__name__, str(exc)[:200], detail))
 
 
+def guarded(fn, case):
+    """check_case with a safety net: an exception that is not a Violation but was RAISED INSIDE the library (innermost
+    Python frame under REPO/bitcoin) escaped through a call the oracle makes unguarded because it never raises on the
+    unchanged tree - that is a behaviour change in property territory, reported as a violation with the library frame as key.
+    Exceptions raised by the harness itself stay harness errors (exit 2)."""
+    try:
+        return fn(case)
+    except Violation:
+        raise
+    except (KeyboardInterrupt, SystemExit, MemoryError):
+        raise
+    except Exception as e:
+        tb = e.__traceback__
+        last = None
+        while tb is not None:
+            last = tb
+            tb = tb.tb_next
+        fnm = last.tb_frame.f_code.co_filename if last is not None else ''
+        if fnm.startswith(os.path.join(REPO, 'bitcoin') + os.sep):
+            raise unexpected('oracle-call', e) from None
+        raise
+
+
 def digest(obj):
     if not isinstance(obj, (bytes, bytearray)):
         obj = json.dumps(obj, sort_keys=True, default=_json_default).encode()
@@ -166,7 +189,7 @@ class Ctx:
     # ---- direct evaluation (enumerations, corpus, fault catalogues)
     def run(self, case):
         try:
-            info = self.mod.check_case(case)
+            info = guarded(self.mod.check_case, case)
         except Violation as v:
             self.evals += 1
             self.violation(v, case)
@@ -186,7 +209,7 @@ class Ctx:
 
             def body(case):
                 try:
-                    info = fn(case)
+                    info = guarded(fn, case)
                 except Violation as v:
                     if v.key in self.known:
                         self.excluded_known[v.key] += 1
